@@ -4,7 +4,9 @@ import (
 	"bytes"
 	"compress/zlib"
 	"encoding/binary"
+	"fmt"
 	"io"
+	"strings"
 
 	"verif/harness/pbfgen"
 	"verif/harness/wire"
@@ -42,15 +44,45 @@ func (f *FrameDesc) Size() int64 { return 4 + f.HLen + f.BLen }
 
 var capabilities = map[string]bool{"OsmSchema-V0.6": true, "DenseNodes": true, "HistoricalInformation": true}
 
-// ElemTok is the token of an expected element (same coding as Tok).
-func ElemTok(e *pbfgen.Element) uint64 {
+// CanonElem renders an expected element exactly as CanonNode/CanonWay/CanonRelation render the
+// decoded object it must equal.
+func CanonElem(e *pbfgen.Element) string {
+	t := "-"
+	if e.HasTimestamp {
+		t = fmt.Sprintf("%d", e.TimestampMs)
+	}
+	meta := fmt.Sprintf("%d|%s|%d|%d|%q|%t", e.Version, t, e.Changeset, e.UID, e.User, e.Visible)
+	var tags strings.Builder
+	for _, kv := range e.Tags {
+		fmt.Fprintf(&tags, "%q=%q;", kv.K, kv.V)
+	}
 	switch e.Kind {
 	case "node":
-		return 1 + 4*uint64(e.ID)
+		return fmt.Sprintf("n|%d|%d|%d|%s|%s", e.ID, e.LatNano, e.LonNano, meta, tags.String())
 	case "way":
-		return 2 + 4*uint64(e.ID)
+		var b strings.Builder
+		for _, n := range e.Nodes {
+			fmt.Fprintf(&b, "%d:%d:%d,", n.ID, n.LatNano, n.LonNano)
+		}
+		return fmt.Sprintf("w|%d|%s|%s|%s", e.ID, meta, tags.String(), b.String())
 	}
-	return 3 + 4*uint64(e.ID)
+	var b strings.Builder
+	for _, m := range e.Members {
+		fmt.Fprintf(&b, "%s:%d:%q,", m.Type, m.Ref, m.Role)
+	}
+	return fmt.Sprintf("r|%d|%s|%s|%s", e.ID, meta, tags.String(), b.String())
+}
+
+// ElemTok is the token of an expected element (same coding as Tok).
+func ElemTok(e *pbfgen.Element) uint64 {
+	h := hash58(CanonElem(e))
+	switch e.Kind {
+	case "node":
+		return 1 + 4*h
+	case "way":
+		return 2 + 4*h
+	}
+	return 3 + 4*h
 }
 
 // BlockToks: expected objects of block i under the skip flags.
